@@ -18,7 +18,7 @@ grep -E "bytecoder.go|vm/vm.go" /verif/mutation/survivors.tsv | while IFS="$(pri
   (cd /repo && diff -u $f /tmp/mutseeds4/m.go | sed "1s|.*|--- a/$f|;2s|.*|+++ b/$f|") > /tmp/mutseeds4/$id.diff
   verdict="SURVIVED"
   for c in $checks; do
-    r=$(SEED_PATCH=/tmp/mutseeds4/$id.diff ./seedmatrix.sh $id $c 2>&1 | tail -1)
+    r=$(SEED_SRC=/tmp/hfrozen SEED_PATCH=/tmp/mutseeds4/$id.diff ./seedmatrix.sh $id $c 2>&1 | tail -1)
     case "$r" in
       *DETECTED*) verdict="detected by $c"; break;;
       *harness-error*) verdict="harness-error in $c"; break;;
